@@ -156,7 +156,7 @@ func runProp(prop string) int {
 	rr := &runResult{deps: map[string]bool{}, ctxOf: map[*Obl]*Ctx{}}
 	// quick: generous relative to the slowest obligation on the unchanged tree (< 4 s), so that a
 	// loaded machine does not turn a proof into a timeout
-	timeout := 45
+	timeout := 60
 	if *flagTier == "thorough" {
 		timeout = 120
 	}
